@@ -46,6 +46,10 @@ PROFILES = {
     # the server answers (HEADERS) before the upload is complete and keeps handing out credit afterwards: the upload must go on
     "early": dict(max_connections=1, auto_credit=False, init_window=1000, ups=[5000, 70000], downs=[0, 10], early_response=True, segment="coarse",
                   init_max_streams=10, p_winsettings=0.0, allow_window_shrink=False, callers=2),
+    # uploads that have run out of credit while the server resets streams, one stream at a time allowed (requests queue for the slot) and
+    # whoever happens to hold the read lock reads the RST_STREAM of somebody else's stream: nobody is left waiting for credit that cannot come
+    "reset-while-stalled": dict(max_connections=1, callers=3, p_rst=0.5, early_response=False, segment="coarse", init_max_streams=1,
+                                ups=[300, 70000, 200000], auto_credit=False, max_steps=150),
     # downloads that are read in full, held, closed unread, or closed after the first part: every byte of credit comes back
     "downloads": dict(max_connections=1, auto_credit=True, ups=[0], downs=[10, 3000, 70000], abandon=True, partial=True, segment="coarse",
                       init_max_streams=10, p_ping=0.1),
@@ -94,6 +98,7 @@ def run(ctx, driver):
     h2x.explore(ctx, rec, ID, PROFILES["quiet"], 40, 1000, WANT)
     h2x.explore(ctx, rec, ID, PROFILES["downloads"], 60, 1500, WANT)
     h2x.explore(ctx, rec, ID, PROFILES["early"], 40, 1000, WANT)
+    h2x.explore(ctx, rec, ID, PROFILES["reset-while-stalled"], 60, 1500, WANT)
     # ---- downloads beyond the client's credit ---------------------------------------------------------------------------------
     runs = [dict(total=20_000_000), dict(total=70_000, frame=1, pad=255)]
     if not ctx.quick:
